@@ -2,6 +2,7 @@ package main
 
 import (
 	"fmt"
+	"math/big"
 	"sort"
 	"strings"
 
@@ -239,10 +240,115 @@ func genBatchOp(r *Rng, maxN int) (*Op, string) {
 	return op, profile
 }
 
+// boundaryPair returns two scalars a, b < 2^252 whose sum sits on a carry /
+// borrow boundary of the modular reduction: a+b = L*c + 2^k*m + pattern, with
+// the low k bits all zero, all one, or just around the low bits of L, for k at
+// multiples of the 30- and 56-bit limb widths.
+func boundaryPair(r *Rng) (string, string) {
+	two := big.NewInt(2)
+	k := []int{30, 56, 60, 90, 112, 120, 150, 168, 180, 210, 224, 240}[r.Intn(12)]
+	mod := new(big.Int).Exp(two, big.NewInt(int64(k)), nil)
+	lowL := new(big.Int).Mod(bcL, mod)
+	var pat *big.Int
+	switch r.Intn(6) {
+	case 0:
+		pat = big.NewInt(0)
+	case 1:
+		pat = big.NewInt(int64(r.Intn(3)))
+	case 2:
+		pat = new(big.Int).Sub(lowL, big.NewInt(int64(1+r.Intn(2))))
+	case 3:
+		pat = new(big.Int).Set(lowL)
+	case 4:
+		pat = new(big.Int).Add(lowL, big.NewInt(int64(r.Intn(2))))
+	default:
+		pat = new(big.Int).Sub(mod, big.NewInt(int64(1+r.Intn(2))))
+	}
+	pat.Mod(pat, mod)
+	// T = (L with its low k bits replaced by the pattern) + m*2^k, m in {0,1,2}
+	T := new(big.Int).Sub(bcL, lowL)
+	T.Add(T, pat)
+	T.Add(T, new(big.Int).Mul(mod, big.NewInt(int64(r.Intn(3)))))
+	if r.Chance(1, 4) { // the same boundary one modulus lower / higher
+		if r.Chance(1, 2) {
+			T.Add(T, bcL)
+		} else if T.Cmp(bcL) > 0 {
+			T.Sub(T, bcL)
+		}
+	}
+	lim := new(big.Int).Lsh(big.NewInt(1), 252)
+	lim.Sub(lim, big.NewInt(1))
+	// split T = a + b with both below 2^252
+	a := new(big.Int).Set(lim)
+	if r.Chance(1, 2) {
+		a = new(big.Int).Mod(leToInt(r.Bytes(32)), lim)
+	}
+	if a.Cmp(T) > 0 {
+		a.Set(T)
+	}
+	b := new(big.Int).Sub(T, a)
+	if b.Cmp(lim) > 0 {
+		b.Set(lim)
+		a.Sub(T, b)
+		if a.Cmp(lim) > 0 {
+			a.Set(lim)
+		}
+	}
+	return hx(intToLE32(a)), hx(intToLE32(b))
+}
+
+// genBoundaryBatch: an all-valid ZIP-215 batch whose scalar halves are chosen
+// so that, with every randomiser equal to 1, the running sum of the batch
+// equation crosses reduction boundaries.
+func genBoundaryBatch(prop string, r *Rng) *Case {
+	n := []int{4, 5, 6, 8, 9, 16, 64, 65, 68, 70, 130}[r.Intn(11)]
+	op := &Op{Fn: "VerifyBatch", Seed: r.U64(), Opt: Opt{Zip: true}}
+	if r.Chance(1, 4) {
+		op.Opt.Ctx = 1 + r.Intn(255)
+	}
+	op.Entries = make([]Entry, n)
+	for i := range op.Entries {
+		op.Entries[i] = Entry{K: "ok", Key: r.Intn(3), ML: r.Intn(40)}
+	}
+	place := func(i int) {
+		if i+1 >= n {
+			return
+		}
+		a, b := boundaryPair(r)
+		op.Entries[i] = Entry{K: "torS", P: r.Intn(14), Q: r.Intn(8), X: a, ML: r.Intn(20)}
+		op.Entries[i+1] = Entry{K: "torS", P: r.Intn(14), Q: r.Intn(8), X: b, ML: r.Intn(20)}
+	}
+	place(0)
+	if n > 66 {
+		place(64)
+	}
+	if n > 130 {
+		place(128)
+	}
+	if r.Chance(1, 3) { // all entries in pairs
+		for i := 2; i+1 < n; i += 2 {
+			if op.Entries[i].K == "ok" {
+				place(i)
+			}
+		}
+	}
+	op.Rd = &DevPlan{CSeed: r.U64(), Content: COne}
+	if r.Chance(1, 4) {
+		op.Rd.Content = []int{CSmall, CZero, COneBit, CUniform}[r.Intn(4)]
+	}
+	if r.Chance(1, 4) {
+		op.Rd.Frag = 1 + r.Intn(64)
+	}
+	return &Case{Prop: prop, Check: "batch", Op: op}
+}
+
 func genBatchCase(prop string, r *Rng) *Case {
 	maxN := 200
 	if tierThorough {
 		maxN = 300
+	}
+	if (prop == "C17" && r.Chance(1, 5)) || (prop == "C06" && r.Chance(1, 25)) {
+		return genBoundaryBatch(prop, r)
 	}
 	op, _ := genBatchOp(r, maxN)
 	if prop == "C17" && r.Chance(1, 2) {
@@ -272,7 +378,7 @@ func genBatchCase(prop string, r *Rng) *Case {
 func allGoodKinds(es []Entry) bool {
 	for _, e := range es {
 		switch e.K {
-		case "ok", "dup", "mix", "tor", "tor0", "smRv":
+		case "ok", "dup", "mix", "tor", "tor0", "smRv", "torS":
 		default:
 			return false
 		}
